@@ -279,3 +279,53 @@ def t_bankruptcy_handler(world):
 _t_bh = tasks
 def tasks(tier):
     return _t_bh(tier) + [('bankruptcy_handler', t_bankruptcy_handler)]
+
+
+# ---------------------------------------------------------------- C07.d: settlement of a wiped-out bank goes through (socialize_loss zeroes the share value, then the debt is repaid)
+def t_repay_after_wipeout(world):
+    from specs.wrappers import OpRun, fmul, ZAT, wprove, Q, replay_wrapper
+    R = OpRun(world, 'repay')
+    ob = Ob('C07.d', 'repay(bad debt) on the settled position succeeds and clears the debt for every deposit share value >= 0, including 0 (the value socialize_loss leaves behind when the loss wipes out all deposits): '
+            'otherwise the settlement of exactly the bankruptcies that kill a bank would revert and the bank would never be shut',
+            [R.f.name], 'loop-free, state-merged; bad debt = the position\'s whole liability (as the handler computes it); magnitudes: shares < 2^64 tokens, liability share value in (0, 2^20); no asset-side balance; emissions inactive')
+    ob.paths = R.paths
+    P = R.pre
+    dom = [P['asv'] >= 0, P['lsv'] > 0, P['lsv'] < (1 << 20) * W, P['ash'] == 0, P['lsh'] > 0, P['lsh'] <= P['tls'], P['tls'] < (1 << 64) * W, P['tas'] >= 0, P['tas'] < (1 << 64) * W,
+           P['flags'] % 4 == 0, P['eo'] >= 0, P['eo'] < (1 << 64) * W, P['erem'] >= 0, P['ins'] >= 0, P['ins'] < (1 << 64) * W, P['bpc'] >= 0, P['bpc'] < 2**31, P['lpc'] >= 0, P['lpc'] < 2**31,
+           R.amount == fmul(P['lsh'], P['lsv']), R.amount > ZAT]
+    for r, errc in R.err:
+        ob.prove(R.eng, r, dom + [errc], z3.BoolVal(False), 'no failing path: the write-off of the whole liability cannot be rejected, whatever the deposit share value', role='settlement-reverts',
+                 replay={'kind': 'wrapper_must_succeed', 'op': 'repay'})
+    for r, okc in R.ok:
+        h = dom + [okc]
+        if ob.witness(R.eng, r, h + [P['asv'] == 0]) is False: continue
+        wprove(ob, R, r, h, z3.And(Q['lsh'] >= 0, fmul(Q['lsh'], P['lsv']) <= ZAT), 'the debt is cleared (at most dust remains)', role='debt-cleared')
+    ob.need_witness('(with deposit share value 0)')
+    return [ob]
+
+
+from specs.wrappers import replay_wrapper as _rw, request_from_env as _rfe
+REPLAYERS['wrapper'] = _rw
+
+
+def replay_must_succeed(model, spec):
+    """the real wrapper operation is run on the model's pre-state: an Err (or panic) reproduces the finding"""
+    env = {k: v for k, v in model.items() if isinstance(v, (int, bool))}
+    req = _rfe(spec['op'], env)
+    out = native([req])[0]
+    bad = bool(out.get('panic')) or not out.get('ok')
+    return bad, {'request': req, 'native': {k: out.get(k) for k in ('ok', 'err', 'panic')}, 'verdict': 'the real operation fails on these inputs' if bad else 'native call returned Ok: not reproduced'}
+
+
+REPLAYERS['wrapper_must_succeed'] = replay_must_succeed
+_t_rw = tasks
+def tasks(tier):
+    return _t_rw(tier) + [('repay_after_wipeout', t_repay_after_wipeout)]
+
+
+
+# ---------------------------------------------------------------- shared with C08.b: the Anchor constraint sets of this property's instructions (signer role, has_one = group, vault / PDA bindings)
+_t_shared_structs = tasks
+def tasks(tier):
+    from specs.C08 import shared_struct_tasks
+    return _t_shared_structs(tier) + shared_struct_tasks('C07.g.', ['LendingPoolHandleBankruptcy'])
